@@ -319,6 +319,7 @@ def r7(ctx):
 
 
 def r9(ctx):
+    ctx.mark('recv-deadline', 'C03.R9')
     ctx.rule('C03.R9', 'a receive timeout means the full time has passed: in PlainDevice::recv and EnhancedDevice::recv the '
              'remaining wait is recomputed inside the loop as (deadline - now) from a deadline fixed once before the loop '
              '(clock + timeout ...) and a clock reading of this iteration, under the test now < deadline; a cumulative '
